@@ -10,6 +10,7 @@ from __future__ import annotations
 
 from functools import lru_cache
 
+from ..builder import NAMES3, build_ops, replay_sequence, run_sequences
 from ..graphs import G, disjoint_pairs, enum_L, enum_O, identifiable_hedge, identifiable_tp, line4_queries
 from ..runner import Res
 from ..y0util import V, snapshot, to_y0
@@ -36,7 +37,9 @@ def shards(tier):
     n = len(_universe(tier))
     size = 64 if tier == "quick" else 256
     n4 = len(_universe_l4(tier))
-    return [(i, min(i + size, n)) for i in range(0, n, size)] + [("l4", i, min(i + 4096, n4)) for i in range(0, n4, 4096)]
+    out = [(i, min(i + size, n)) for i in range(0, n, size)] + [("l4", i, min(i + 4096, n4)) for i in range(0, n4, 4096)]
+    # builder phase: one live graph object edited in place (insertions and count-preserving edge moves), queried after every step
+    return out + [("build", i) for i in range(len(build_ops(NAMES3)))]
 
 
 def describe(tier):
@@ -50,7 +53,9 @@ def describe(tier):
         + ("8" if tier == "quick" else "9")
         + " edges on the line-4 slice of queries (An(Y)=V, line 3 adds nothing, G minus X splits into districts of which at least "
         "two are proper parts of districts of G: products of several line-7 results; identifiable queries only); entry points identify_outcomes and identify(Identification); graphs up "
-        "to 3 nodes also as networkx graphs over string node names",
+        "to 3 nodes also as networkx graphs over string node names; builder sequences: every sequence of 3 steps over 3 names on one "
+        "live graph object, a step being an edge insertion or an edge move (one edge removed from the underlying networkx graph and "
+        "another of the same kind inserted: node and edge counts unchanged), every query through both entry points after every step",
         "rule": "state = (graph, X, Y); transition = one ID call compared with the identifiability oracle "
         "(Tian-Pearl closure; for n<=4 also the brute-force hedge search) and with input snapshots",
         "assumptions": [
@@ -179,8 +184,21 @@ def explore_graph(res: Res, g: G, only=None, tier="thorough", mode="full"):
         check_query(res, g, yg, x, y, case, hedge)
 
 
+def _builder_judge(res):
+    def judge(y, g, hist):
+        for x, yy in disjoint_pairs(g.nodes):
+            check_query(res, g, y, x, yy, {"graph": g.to_json(), "X": list(x), "Y": list(yy), "builder_ops": hist}, False)
+        res.outcomes["builder_step"] += 1
+        return True
+
+    return judge
+
+
 def work(shard, tier, seed):
     res = Res()
+    if shard[0] == "build":
+        run_sequences(shard[1], 3, _builder_judge(res), names=NAMES3, moves=True)
+        return res
     if shard[0] == "l4":
         for g in _universe_l4(tier)[shard[1] : shard[2]]:
             explore_graph(res, g, tier=tier, mode="l4")
@@ -194,6 +212,9 @@ def work(shard, tier, seed):
 def replay(case, clause=None):
     g = G.from_json(case["graph"])
     res = Res()
+    if "builder_ops" in case:
+        replay_sequence(case["builder_ops"], _builder_judge(res))
+        return [v for v in res.violations if v["input"].get("builder_ops") == case["builder_ops"] and (v["input"]["X"], v["input"]["Y"]) == (case["X"], case["Y"]) and (clause is None or v["clause"] == clause)][:1]
     if case.get("string_nodes"):
         check_string_graph(res, g)
         return [v for v in res.violations if clause is None or v["clause"] == clause]
